@@ -166,6 +166,14 @@ def run(tier, seed):
             close_unawaited(its)
             rep.count(("await_each", n, take), n > 0 and take > 0)
             awaited = [e[1] for e in log if e[0] == "awaititem"]
+            # lazily: the k-th awaitable is taken from the source only when the consumer asks for the k-th result
+            seq = [(e[0], e[1]) for e in log if e[0] in ("pull", "awaititem")]
+            m_ = builtins.min(take, n)
+            want_seq = [ev for i in range(m_) for ev in (("pull", i), ("awaititem", i))] + ([("pull", n)] if take > n else [])
+            if seq != want_seq:
+                fails += 1
+                rep.violation("adapters:await_each", {"items": n, "take": take, "why": "taking from the source and awaiting interleave as %r, expected %r" % (seq, want_seq)})
+                continue
             if builtins.any(x is not y for x, y in builtins.zip(got, base)) or len(got) != builtins.min(take, n) or awaited != list(range(builtins.min(take, n))):
                 fails += 1
                 rep.violation("adapters:await_each", {"items": n, "take": take, "why": "got %r, awaited %r: awaitables must be awaited one at a time, in order, only when asked" % (got, awaited)})
